@@ -1243,6 +1243,15 @@ func (*Context).RunAfterParsed
   ensures [C03] result == nil ==> len(ctx.Matched) <= ctx.parser.pt.offset
   ensures [C03] result == nil ==> ctx.Ret != nil
 
+// ---- types_methods.go: binding a method never writes into the shared prototype tables (C11) ----
+
+func getBindMethod
+  props C11 C01
+  requires v != nil && funcDef != nil
+  ensures [C11] result != nil ==> isFresh(result)
+  ensures [C11] funcDef.TypeId == VMTypeNativeFunction ==> result != nil && isFresh(result.Value.(*NativeFunctionData)) && funcDef.Value.(*NativeFunctionData).Self == old(funcDef.Value.(*NativeFunctionData).Self)
+  ensures [C11] funcDef.TypeId == VMTypeFunction ==> result != nil && isFresh(result.Value.(*FunctionData)) && funcDef.Value.(*FunctionData).Self == old(funcDef.Value.(*FunctionData).Self)
+
 // ---- extension points (C17) ----
 
 // StoreName: a store hook that passes the value through (returns nil, false) changes nothing: the value handed to the
